@@ -170,7 +170,7 @@ func (C05) Explore(x *kernel.Explorer, seed uint64) {
 	r := kernel.NewRNG(seed, 0xc05)
 	for i := 0; i < 4 && !x.Expired(); i++ {
 		plan := &kernel.Plan{Prop: "C05", Seed: kernel.Mix(seed, uint64(i)), Swarm: map[string]int64{
-			"chunk": int64(r.Intn(4)), "ignoreparse": int64(r.Intn(2)), "chainseed": int64(r.Uint32()), "extended": int64(r.Intn(3) / 2), "mysql": int64(r.Intn(3) / 2), "depeof": int64(r.Intn(2)), "wyield": int64(r.Intn(2)), "idle": int64(r.Intn(4) / 3)}}
+			"chunk": int64(r.Intn(4)), "ignoreparse": int64(r.Intn(2)), "chainseed": int64(r.Uint32()), "extended": int64(r.Intn(3) / 2), "mysql": int64(r.Intn(3) / 2), "depeof": int64(r.Intn(2)), "rawmy": int64(r.Intn(2)), "reexec": int64(r.Intn(2)), "wyield": int64(r.Intn(2)), "idle": int64(r.Intn(4) / 3)}}
 		n := 3 + r.Intn(8)
 		for j := 0; j < n; j++ {
 			plan.Ops = append(plan.Ops, kernel.Op{ID: j + 1, Kind: "stmt",
